@@ -98,11 +98,16 @@ class DagWalker(Walker):
         if expression in self.memoization:
             return self.memoization[expression]
 
-        res = self.iter_walk(expression, **kwargs)
-
-        if self.invalidate_memoization:
-            self.memoization.clear()
-        return res
+        stack_size = len(self.stack)
+        try:
+            return self.iter_walk(expression, **kwargs)
+        finally:
+            # Also a failed walk must not leave partial work behind: pending
+            # nodes would be processed by the next walk, and a one-shot
+            # memoization would leak results computed for other arguments.
+            del self.stack[stack_size:]
+            if self.invalidate_memoization:
+                self.memoization.clear()
 
     def _get_key(self, expression: FNode, **kwargs):
         if not kwargs:
